@@ -34,14 +34,33 @@ CONSTANTS
   Sizes,                             \* bit-array sizes a peer uses
   MaxVotes,                          \* types.MaxVotesCount
   MaxParts,                          \* types.MaxBlockPartsCount
-  Weak_BitArrayOpsAssumeEqualSize
+  Weak_BitArrayOpsAssumeEqualSize,
+  Weak_LastCommitNilDeref,           \* State.addVote hands a precommit for height-1 to cs.LastCommit without looking whether
+                                     \* there is one (there is none at the chain's initial height): the unrepaired tree
+  Weak_SetRoundRecreatesRound        \* HeightVoteSet.SetRound adds the new top round without looking whether a peer's
+                                     \* catch-up vote has created it already
 
-\* the node: height 1, round 0, step Prevote, its own complete proposal (NodeParts parts) and its own prevote
-\* for it in round 0; HeightVoteSet holds rounds 0 and 1; nothing stored yet (blockStore.Base() = 0)
+\* The node, by class.  Heights are relative: NodeH stands for the node's current height; nd.abs is the
+\* number it really has (1 or 5 = a chain's initial height, 2 = after one commit), which only matters for
+\* "is height-2 negative".
+\*   step   "newheight"  RoundStepNewHeight: waiting for the NewHeight timeout (at the initial height: until
+\*                       genesis time); no proposal, no own votes, HeightVoteSet holds round 0 only
+\*          "later"      in round nd.r with a complete proposal and its own prevote out; HeightVoteSet holds 0..nd.r+1
+\*          "done"       the height was committed (end of the model)
+\*   hasLC  cs.LastCommit present (never at the initial height: updateToState leaves it nil)
+\*   rounds rounds that have vote sets in cs.Votes (incl. the ones a peer's catch-up vote created)
+\*   catchup  HeightVoteSet.peerCatchupRounds of this peer (at most 2 per height)
+\*   halted "CONSENSUS FAILURE!!!": receiveRoutine recovered a panic and stopped for good
 NodeH == 1
-NodeR == 0
 NodeParts == 1
-NodeRounds == {0, 1}
+NodeClasses ==
+  { [step |-> "newheight", hasLC |-> FALSE, abs |-> 1, r |-> 0, rounds |-> {0}, catchup |-> 0, halted |-> FALSE],
+    [step |-> "newheight", hasLC |-> FALSE, abs |-> 5, r |-> 0, rounds |-> {0}, catchup |-> 0, halted |-> FALSE],
+    [step |-> "newheight", hasLC |-> TRUE,  abs |-> 2, r |-> 0, rounds |-> {0}, catchup |-> 0, halted |-> FALSE],
+    [step |-> "later",     hasLC |-> TRUE,  abs |-> 2, r |-> 0, rounds |-> {0, 1}, catchup |-> 0, halted |-> FALSE] }
+HasProp(nd) == nd.step = "later"
+ClassName(nd) == IF nd.step = "later" THEN "later" ELSE IF nd.hasLC THEN "nh_commit"
+                 ELSE IF nd.abs = 5 THEN "nh_init5" ELSE "nh_init"
 
 NilBA == -1
 Words(n) == (n + 63) \div 64
@@ -90,7 +109,8 @@ Ensure(p, h, n) ==
   ELSE p
 
 \* ------------------------------------------------------------------ messages
-\* one record shape for every kind: [k, h, r, s, pol, size, hdr, commit, t, idx]
+\* one record shape for every kind: [k, h, r, s, pol, size, hdr, commit, t, idx]; h is relative (NodeH = the
+\* node's height, NodeH - 1 = the height before, ...)
 Msg(k, h, r, s, pol, size, hdr, commit, t, idx) ==
   [k |-> k, h |-> h, r |-> r, s |-> s, pol |-> pol, size |-> size, hdr |-> hdr, commit |-> commit, t |-> t, idx |-> idx]
 NRS(h, r, s)            == Msg("NRS", h, r, s, -1, 0, "none", FALSE, 0, 0)
@@ -98,18 +118,23 @@ Proposal(r, pol, hdr, tot) == Msg("Proposal", NodeH, r, 0, pol, tot, hdr, FALSE,
 ProposalPOL(pol, size)  == Msg("ProposalPOL", NodeH, 0, 0, pol, size, "none", FALSE, 0, 0)
 NVB(r, hdr, size, c)    == Msg("NVB", NodeH, r, 0, -1, size, hdr, c, 0, 0)
 HasVote(r, t, idx)      == Msg("HasVote", NodeH, r, 0, -1, 0, "none", FALSE, t, idx)
-Vote(r, t, idx)         == Msg("Vote", NodeH, r, 0, -1, 0, "none", FALSE, t, idx)
+Vote(h, r, t, idx)      == Msg("Vote", h, r, 0, -1, 0, "none", FALSE, t, idx)
 Maj23(r, t)             == Msg("Maj23", NodeH, r, 0, -1, 0, "node", FALSE, t, 0)
 VSBits(r, t, hdr, size) == Msg("VSBits", NodeH, r, 0, -1, size, hdr, FALSE, t, 0)
 
+MaxInt32 == 2147483647
+\* the number the relative height h really is
+Abs(nd, h) == nd.abs + h - NodeH
+
 \* ValidateBasic / ValidateHeight of the message: FALSE = the peer is stopped
-Valid(m) ==
-  CASE m.k = "NRS"         -> m.h >= 1 /\ m.r >= 0 /\ m.s \in 1..8
+Valid(nd, m) ==
+  CASE m.k = "NRS"         -> m.h >= NodeH /\ m.r >= 0 /\ m.s \in 1..8
     [] m.k = "Proposal"    -> m.r >= 0 /\ m.pol >= -1 /\ m.size >= 1 /\ m.size <= MaxParts
     [] m.k = "ProposalPOL" -> m.pol >= 0 /\ m.size >= 1 /\ m.size <= MaxVotes
     [] m.k = "NVB"         -> m.r >= 0 /\ m.size >= 1 /\ m.size <= MaxParts
     [] m.k = "HasVote"     -> m.r >= 0 /\ m.idx >= 0 /\ m.t \in {Prevote, Precommit}
-    [] m.k = "Vote"        -> m.r >= 0 /\ m.idx >= 0 /\ m.t \in {Prevote, Precommit}
+    \* types.Vote.ValidateBasic: only NEGATIVE heights / rounds / indexes are refused (height 0 is accepted)
+    [] m.k = "Vote"        -> Abs(nd, m.h) >= 0 /\ m.r >= 0 /\ m.idx >= 0 /\ m.t \in {Prevote, Precommit}
     [] m.k = "Maj23"       -> m.r >= 0 /\ m.t \in {Prevote, Precommit}
     [] m.k = "VSBits"      -> m.size >= 0 /\ m.size <= MaxVotes /\ m.t \in {Prevote, Precommit}
 
@@ -119,9 +144,9 @@ CompareHRS(h1, r1, s1, h2, r2, s2) ==
 
 \* PeerState.ApplyNewRoundStepMessage (in the order of the code: the arrays are cleared first, so
 \* "shift Precommits to LastCommit" shifts what is left after the clearing / the catch-up restore)
-ApplyNRS(p, m) ==
+ApplyNRS(nd, p, m) ==
   IF CompareHRS(m.h, m.r, m.s, p.h, p.r, p.step) <= 0 THEN p
-  ELSE LET lcr == IF m.h = 1 THEN -1 ELSE 0
+  ELSE LET lcr == IF Abs(nd, m.h) <= (IF nd.hasLC THEN nd.abs - 1 ELSE nd.abs) THEN -1 ELSE 0
            p1 == [p EXCEPT !.h = m.h, !.r = m.r, !.step = m.s]
            p2 == IF p.h # m.h \/ p.r # m.r
                  THEN [p1 EXCEPT !.proposal = FALSE, !.pbpHdr = "none", !.pbp = NilBA, !.polR = -1, !.pol = NilBA,
@@ -148,60 +173,107 @@ ApplyNVB(p, m) ==
   IF p.h # m.h \/ (p.r # m.r /\ ~m.commit) THEN p ELSE [p EXCEPT !.pbpHdr = m.hdr, !.pbp = m.size]
 
 \* the votes of the node for BlockID `hdr` in (round, type): VoteSet.BitArrayByBlockID
-OurVotes(m) == IF m.hdr = "node" /\ m.r = NodeR /\ m.t = Prevote THEN N ELSE NilBA
+OurVotes(nd, m) == IF HasProp(nd) /\ m.hdr = "node" /\ m.r = nd.r /\ m.t = Prevote THEN N ELSE NilBA
 
-\* Reactor.ReceiveEnvelope for message m: [p |-> PRS', stop |-> peer stopped, panic |-> panic INSIDE Receive]
-Receive(p, m) ==
-  IF ~Valid(m) THEN [p |-> p, stop |-> TRUE, panic |-> FALSE]
-  ELSE CASE m.k = "NRS"         -> [p |-> ApplyNRS(p, m), stop |-> FALSE, panic |-> FALSE]
-         [] m.k = "Proposal"    -> [p |-> ApplyProposal(p, m), stop |-> FALSE, panic |-> FALSE]
-         [] m.k = "ProposalPOL" -> [p |-> ApplyPOL(p, m), stop |-> FALSE, panic |-> FALSE]
-         [] m.k = "NVB"         -> [p |-> ApplyNVB(p, m), stop |-> FALSE, panic |-> FALSE]
+\* consensus.State.addVote for a vote the reactor queued (handleMsg in receiveRoutine, under its recover):
+\* [nd |-> node', halt |-> the state machine panicked: "CONSENSUS FAILURE!!!"]
+\* The signature and the validator are looked at only inside VoteSet.AddVote, i.e. AFTER the set was chosen
+\* and, for an unknown round of the current height, AFTER HeightVoteSet created the round for the peer.
+HandleVote(nd, m) ==
+  IF m.h + 1 = NodeH /\ m.t = Precommit THEN
+       IF nd.step # "newheight" THEN [nd |-> nd, halt |-> FALSE]                 \* late precommit: ignored
+       ELSE IF ~nd.hasLC THEN [nd |-> nd, halt |-> Weak_LastCommitNilDeref]       \* no LastCommit: ignored (repaired)
+       ELSE [nd |-> nd, halt |-> FALSE]                                          \* LastCommit.AddVote: refused (signature)
+  ELSE IF m.h # NodeH THEN [nd |-> nd, halt |-> FALSE]                           \* other height: ignored
+  ELSE IF m.r \in nd.rounds THEN [nd |-> nd, halt |-> FALSE]                     \* VoteSet.AddVote: refused (signature)
+  ELSE IF nd.catchup < 2
+       THEN [nd |-> [nd EXCEPT !.rounds = @ \cup {m.r}, !.catchup = @ + 1], halt |-> FALSE]   \* catch-up round created
+       ELSE [nd |-> nd, halt |-> FALSE]                                          \* ErrGotVoteFromUnwantedRound
+
+\* Reactor.ReceiveEnvelope for message m:
+\* [p |-> PRS', nd |-> node', stop |-> peer stopped, halt |-> consensus state machine halted]
+Receive(nd, p, m) ==
+  LET keep(q) == [p |-> q, nd |-> nd, stop |-> FALSE, halt |-> FALSE] IN
+  IF ~Valid(nd, m) THEN [p |-> p, nd |-> nd, stop |-> TRUE, halt |-> FALSE]
+  ELSE CASE m.k = "NRS"         -> keep(ApplyNRS(nd, p, m))
+         [] m.k = "Proposal"    -> keep(ApplyProposal(p, m))
+         [] m.k = "ProposalPOL" -> keep(ApplyPOL(p, m))
+         [] m.k = "NVB"         -> keep(ApplyNVB(p, m))
          \* setHasVote: getVoteBitArray(...).SetIndex(idx): index checked, nothing changes in size
-         [] m.k = "HasVote"     -> [p |-> p, stop |-> FALSE, panic |-> FALSE]
-         \* EnsureVoteBitArrays(height, valSize); EnsureVoteBitArrays(height-1, lastCommitSize = 0); SetHasVote
-         [] m.k = "Vote"        -> [p |-> Ensure(p, NodeH, N), stop |-> FALSE, panic |-> FALSE]
-         [] m.k = "Maj23"       -> [p |-> p, stop |-> FALSE, panic |-> FALSE]
+         [] m.k = "HasVote"     -> keep(p)
+         \* EnsureVoteBitArrays(height, valSize); EnsureVoteBitArrays(height-1, LastCommit.Size()); SetHasVote; queue
+         [] m.k = "Vote"        ->
+              LET q == Ensure(Ensure(p, NodeH, N), NodeH - 1, IF nd.hasLC THEN N ELSE 0)
+                  hv == HandleVote(nd, m)
+              IN [p |-> q, nd |-> hv.nd, stop |-> FALSE, halt |-> hv.halt]
+         [] m.k = "Maj23"       -> keep(p)
          [] m.k = "VSBits"      ->
               LET arr == GetVBA(p, m.h, m.r, m.t)
-                  ours == IF m.h = NodeH THEN OurVotes(m) ELSE NilBA
-              IN IF arr = NilBA \/ ours = NilBA THEN [p |-> p, stop |-> FALSE, panic |-> FALSE]
-                 ELSE LET s == BASub(arr, ours) IN   \* votes.Sub(ourVotes).Or(msg.Votes), votes.Update(..)
+                  ours == IF m.h = NodeH THEN OurVotes(nd, m) ELSE NilBA
+              IN IF arr = NilBA \/ ours = NilBA THEN keep(p)
+                 ELSE LET sb == BASub(arr, ours) IN   \* votes.Sub(ourVotes).Or(msg.Votes), votes.Update(..)
                       \* a panic here is inside recvRoutine: MConnection._recover stops the peer
-                      [p |-> p, stop |-> s.panic, panic |-> s.panic]
+                      [p |-> p, nd |-> nd, stop |-> sb.panic, halt |-> FALSE]
 
 \* ------------------------------------------------------------------ the node's goroutines for this peer
-\* gossipVotesForHeight: the PickSendVote attempts, in the order of the code; which = the attempt.
-\* [round, type] of the node's vote set handed to PickSendVote, or "skip" when the guard is false.
-VotesTries == {"lastcommit", "pol_early", "prevotes", "precommits", "prevotes_vb", "pol_late"}
-TryTarget(p, which) ==
-  CASE which = "lastcommit" -> [on |-> FALSE, r |-> 0, t |-> Precommit]   \* rs.LastCommit is nil at height 1 (Size() = 0)
-    [] which = "pol_early"  -> [on |-> p.step <= StepPropose /\ p.r # -1 /\ p.r <= NodeR /\ p.polR # -1 /\ p.polR \in NodeRounds,
-                                r |-> p.polR, t |-> Prevote]
-    [] which = "prevotes"   -> [on |-> p.step <= StepPrevoteWait /\ p.r # -1 /\ p.r <= NodeR, r |-> p.r, t |-> Prevote]
-    [] which = "precommits" -> [on |-> p.step <= StepPrecommitWait /\ p.r # -1 /\ p.r <= NodeR, r |-> p.r, t |-> Precommit]
-    [] which = "prevotes_vb" -> [on |-> p.r # -1 /\ p.r <= NodeR, r |-> p.r, t |-> Prevote]
-    [] which = "pol_late"   -> [on |-> p.polR # -1 /\ p.polR \in NodeRounds, r |-> p.polR, t |-> Prevote]
-\* PeerState.PickVoteToSend(votes): ensureVoteBitArrays, getVoteBitArray, votes.BitArray().Sub(psVotes).PickRandom()
-PickVote(p, which) ==
-  LET tg == TryTarget(p, which) IN
-  IF p.h # NodeH \/ ~tg.on THEN [p |-> p, panic |-> FALSE]
-  ELSE LET p1 == Ensure(p, NodeH, N)
-           arr == GetVBA(p1, NodeH, tg.r, tg.t)
+\* gossipVotesRoutine: the PickSendVote attempts of gossipVotesForHeight in the order of the code, and the
+\* "peer is one height behind" attempt.  [on, h, r, t, commit] = the node's vote set handed to PickSendVote.
+VotesTries == {"lastcommit", "pol_early", "prevotes", "precommits", "prevotes_vb", "pol_late", "behind_lastcommit"}
+TryTarget(nd, p, which) ==
+  LET sameH == p.h = NodeH IN
+  CASE which = "lastcommit" -> [on |-> sameH /\ p.step = StepNewHeight /\ nd.hasLC, h |-> NodeH - 1, r |-> 0, t |-> Precommit, commit |-> TRUE]
+    [] which = "pol_early"  -> [on |-> sameH /\ p.step <= StepPropose /\ p.r # -1 /\ p.r <= nd.r /\ p.polR # -1 /\ p.polR \in nd.rounds,
+                                h |-> NodeH, r |-> p.polR, t |-> Prevote, commit |-> FALSE]
+    [] which = "prevotes"   -> [on |-> sameH /\ p.step <= StepPrevoteWait /\ p.r # -1 /\ p.r <= nd.r /\ p.r \in nd.rounds,
+                                h |-> NodeH, r |-> p.r, t |-> Prevote, commit |-> FALSE]
+    [] which = "precommits" -> [on |-> sameH /\ p.step <= StepPrecommitWait /\ p.r # -1 /\ p.r <= nd.r /\ p.r \in nd.rounds,
+                                h |-> NodeH, r |-> p.r, t |-> Precommit, commit |-> FALSE]
+    [] which = "prevotes_vb" -> [on |-> sameH /\ p.r # -1 /\ p.r <= nd.r /\ p.r \in nd.rounds, h |-> NodeH, r |-> p.r, t |-> Prevote, commit |-> FALSE]
+    [] which = "pol_late"   -> [on |-> sameH /\ p.polR # -1 /\ p.polR \in nd.rounds, h |-> NodeH, r |-> p.polR, t |-> Prevote, commit |-> FALSE]
+    [] which = "behind_lastcommit" -> [on |-> p.h # 0 /\ p.h + 1 = NodeH /\ nd.hasLC, h |-> NodeH - 1, r |-> 0, t |-> Precommit, commit |-> TRUE]
+\* PeerState.ensureCatchupCommitRound
+EnsureCatchup(p, h, r) ==
+  IF p.h # h \/ p.ccR = r THEN p
+  ELSE [p EXCEPT !.ccR = r, !.cc = IF r = p.r THEN p.pc ELSE N]
+\* PeerState.PickVoteToSend(votes): ensureCatchupCommitRound (a commit), ensureVoteBitArrays, getVoteBitArray,
+\* votes.BitArray().Sub(psVotes).PickRandom()
+PickVote(nd, p, which) ==
+  LET tg == TryTarget(nd, p, which) IN
+  IF nd.step = "done" \/ ~tg.on THEN [p |-> p, panic |-> FALSE]
+  ELSE LET p0 == IF tg.commit THEN EnsureCatchup(p, tg.h, tg.r) ELSE p
+           p1 == Ensure(p0, tg.h, N)
+           arr == GetVBA(p1, tg.h, tg.r, tg.t)
        IN [p |-> p1, panic |-> BASub(N, arr).panic]
 
 \* gossipDataRoutine, one iteration
-GossipData(p) ==
-  IF p.pbpHdr = "node"
+GossipData(nd, p) ==
+  IF nd.step = "done" THEN [p |-> p, panic |-> FALSE]
+  ELSE IF HasProp(nd) /\ p.pbpHdr = "node"
   THEN \* rs.ProposalBlockParts.BitArray().Sub(prs.ProposalBlockParts.Copy()).PickRandom(); SetHasProposalBlockPart
        [p |-> p, panic |-> BASub(NodeParts, p.pbp).panic]
-  ELSE IF p.h # NodeH \/ p.r # NodeR THEN [p |-> p, panic |-> FALSE]      \* (no catch-up: nothing stored yet)
-  ELSE IF ~p.proposal
+  ELSE IF nd.hasLC /\ p.h # 0 /\ p.h < NodeH
+  THEN \* catch-up: InitProposalBlockParts(stored header) or prs.ProposalBlockParts.Not().PickRandom(): total
+       [p |-> IF p.pbp = NilBA THEN [p EXCEPT !.pbpHdr = "stored", !.pbp = NodeParts] ELSE p, panic |-> FALSE]
+  ELSE IF p.h # NodeH \/ p.r # nd.r THEN [p |-> p, panic |-> FALSE]
+  ELSE IF HasProp(nd) /\ ~p.proposal
        THEN \* sends its own Proposal (POLRound -1), then ps.SetHasProposal(rs.Proposal)
-            [p |-> ApplyProposal(p, Proposal(NodeR, -1, "node", NodeParts)), panic |-> FALSE]
+            [p |-> ApplyProposal(p, Proposal(nd.r, -1, "node", NodeParts)), panic |-> FALSE]
   ELSE [p |-> p, panic |-> FALSE]
 
+\* ------------------------------------------------------------------ the node carries on
+\* HeightVoteSet.SetRound(round): creates the rounds above hvs.round up to `round` that do not exist yet
+\* (a peer's catch-up vote may have created some).  [nd, halt]
+SetRound(nd, round) ==
+  [nd |-> [nd EXCEPT !.rounds = @ \cup {round}], halt |-> Weak_SetRoundRecreatesRound /\ round \in nd.rounds]
+\* NewHeight timeout: enterNewRound(H, 0) -> Votes.SetRound(1); proposal complete, own prevote
+StartHeight(nd) == LET x == SetRound(nd, 1) IN [nd |-> [x.nd EXCEPT !.step = "later", !.r = 0], halt |-> x.halt]
+\* the round fails (+2/3 any, timeouts): enterNewRound(H, r+1) -> Votes.SetRound(r+2)
+NextRound(nd) == LET x == SetRound(nd, nd.r + 2) IN [nd |-> [x.nd EXCEPT !.r = nd.r + 1], halt |-> x.halt]
+Commit(nd) == [nd |-> [nd EXCEPT !.step = "done"], halt |-> FALSE]
+
 \* ------------------------------------------------------------------ the alphabet of one hostile peer
+VoteMsgs == {Vote(h, r, t, idx) : h \in {NodeH - 2, NodeH - 1, NodeH, NodeH + 1}, r \in {0, 1, 2, MaxInt32},
+                                  t \in {Prevote, Precommit}, idx \in {-1, 1, N, MaxInt32}}
 HostileMsgs ==
        {NRS(h, r, s) : h \in {NodeH, NodeH + 1}, r \in {0, 1}, s \in {1, 3, 6, 8}}
   \cup {Proposal(r, pol, "foreign", tot) : r \in {0, 1}, pol \in {-1, 0}, tot \in (Sizes \cap 1..MaxParts)}
@@ -209,14 +281,15 @@ HostileMsgs ==
   \cup {ProposalPOL(pol, size) : pol \in {0, 1}, size \in Sizes}
   \cup {NVB(r, "foreign", size, c) : r \in {0, 1}, size \in Sizes, c \in BOOLEAN}
   \cup {NVB(r, "node", NodeParts, c) : r \in {0, 1}, c \in BOOLEAN}
-  \cup {HasVote(r, t, idx) : r \in {0, 1}, t \in {Prevote, Precommit}, idx \in {0, N, 2147483647}}
-  \cup {Vote(r, t, idx) : r \in {0, 1}, t \in {Prevote, Precommit}, idx \in {1, N}}
+  \cup {HasVote(r, t, idx) : r \in {0, 1}, t \in {Prevote, Precommit}, idx \in {0, N, MaxInt32}}
+  \cup VoteMsgs
   \cup {Maj23(r, t) : r \in {0, 1}, t \in {Prevote, Precommit}}
   \cup {VSBits(r, t, hdr, size) : r \in {0, 1}, t \in {Prevote, Precommit}, hdr \in {"node", "foreign"}, size \in Sizes}
 
 \* ------------------------------------------------------------------ targeted sequences
-\* every message that carries a bit array, in every size, after every state-setting prefix that
-\* makes the reactor look at it
+\* (1) every message that carries a bit array, in every size, after every state-setting prefix that makes the
+\*     reactor look at it; node in a later step with its proposal and prevote out
+LaterClass == CHOOSE nd \in NodeClasses : nd.step = "later"
 SetupPrefixes ==
   { << >>,
     <<NRS(NodeH, 0, StepPropose)>>,
@@ -225,39 +298,60 @@ SetupPrefixes ==
     <<NRS(NodeH, 0, StepPropose), Proposal(0, 0, "foreign", N)>>,
     <<NRS(NodeH, 1, StepPropose), Proposal(1, 0, "foreign", N)>>,
     <<NRS(NodeH, 1, StepPropose), Proposal(1, 0, "node", NodeParts)>>,
-    <<NRS(NodeH, 0, StepPropose), Vote(0, Prevote, 1)>>,
+    <<NRS(NodeH, 0, StepPropose), Vote(NodeH, 0, Prevote, 1)>>,
     <<NRS(NodeH, 0, StepPropose), Maj23(0, Prevote)>>,
     <<NRS(NodeH, 0, StepPropose), HasVote(0, Prevote, 1)>>,
     <<NRS(NodeH, 1, StepPropose), Proposal(1, 0, "foreign", N), Maj23(0, Prevote)>>,
-    <<NRS(NodeH, 1, StepPropose), Proposal(1, 0, "foreign", N), Vote(0, Prevote, 1)>> }
+    <<NRS(NodeH, 1, StepPropose), Proposal(1, 0, "foreign", N), Vote(NodeH, 0, Prevote, 1)>> }
 BitArrayMsgs ==
        {ProposalPOL(0, size) : size \in Sizes}
   \cup {NVB(r, "foreign", size, c) : r \in {0, 1}, size \in Sizes, c \in BOOLEAN}
   \cup {NVB(0, "node", NodeParts, FALSE)}
   \cup {VSBits(r, t, hdr, size) : r \in {0, 1}, t \in {Prevote, Precommit}, hdr \in {"node", "foreign"}, size \in Sizes}
-TargetedSeqs == {Append(pre, m) : pre \in SetupPrefixes, m \in BitArrayMsgs}
+\* (2) every vote class (height H-2 .. H+1, rounds up to r+2 and huge, both types, index classes) in every node
+\*     class; at a chain's initial height a fresh node per sequence, hence the smaller index set there
+VoteTargets(nd) ==
+  IF nd.hasLC THEN {<<v>> : v \in VoteMsgs} \cup {<<NRS(NodeH, 0, StepNewHeight), v>> : v \in VoteMsgs}
+  ELSE IF nd.abs = 1 THEN {<<v>> : v \in {w \in VoteMsgs : w.idx = 1}}
+  ELSE {<<v>> : v \in {w \in VoteMsgs : w.idx = 1 /\ w.h < NodeH /\ w.r \in {0, 2}}}
+\* a targeted case: the node class the sequence is fed in, and the sequence
+TargetedSeqs ==
+       {[nd |-> LaterClass, sq |-> Append(pre, m)] : pre \in SetupPrefixes, m \in BitArrayMsgs}
+  \cup UNION {{[nd |-> nd, sq |-> s] : s \in VoteTargets(nd)} : nd \in NodeClasses}
 
-\* run a whole sequence with every goroutine step after every message (the goroutines loop all the time)
-GossipAll(p) ==
-  LET d  == GossipData(p)
+\* every goroutine step after a message (the goroutines loop all the time)
+GossipAll(nd, p) ==
+  LET d  == GossipData(nd, p)
       RECURSIVE Tries(_, _)
       Tries(q, ws) == IF ws = {} THEN [p |-> q, panic |-> FALSE]
                       ELSE LET w == CHOOSE x \in ws : TRUE
-                               a == PickVote(q, w)
+                               a == PickVote(nd, q, w)
                                b == Tries(a.p, ws \ {w})
                            IN [p |-> b.p, panic |-> a.panic \/ b.panic]
       v  == Tries(d.p, VotesTries)
   IN [p |-> v.p, panic |-> d.panic \/ v.panic]
-RECURSIVE RunSeq(_, _)
-\* [crash |-> a goroutine panicked, stopAt |-> index of the message that got the peer stopped, 0 = none]
-RunSeq(p, sq) ==
-  IF sq = << >> THEN [crash |-> FALSE, stopAt |-> 0]
-  ELSE LET x == Receive(p, Head(sq)) IN
-       IF x.stop THEN [crash |-> FALSE, stopAt |-> 1]
-       ELSE LET g == GossipAll(x.p)
-                rest == RunSeq(g.p, Tail(sq))
-            IN [crash |-> g.panic \/ rest.crash,
-                stopAt |-> IF g.panic THEN 0 ELSE IF rest.stopAt = 0 THEN 0 ELSE rest.stopAt + 1]
+\* feed a whole sequence in node class nd: [nd, p, crash, halt, stopAt]
+RECURSIVE FeedSeq(_, _, _)
+FeedSeq(nd, p, sq) ==
+  IF sq = << >> THEN [nd |-> nd, p |-> p, crash |-> FALSE, halt |-> FALSE]
+  ELSE LET x == Receive(nd, p, Head(sq)) IN
+       IF x.stop \/ x.halt THEN [nd |-> x.nd, p |-> x.p, crash |-> FALSE, halt |-> x.halt]
+       ELSE LET g == GossipAll(x.nd, x.p) IN
+            IF g.panic THEN [nd |-> x.nd, p |-> g.p, crash |-> TRUE, halt |-> FALSE]
+            ELSE FeedSeq(x.nd, g.p, Tail(sq))
+\* ... and then the node carries on: (start the height,) one failed round, one committed height; the goroutines
+\* keep running on what the sequence left in the peer state
+CarryOn(nd, p) ==
+  LET a == IF nd.step = "newheight" THEN StartHeight(nd) ELSE [nd |-> nd, halt |-> FALSE]
+      g1 == GossipAll(a.nd, p)
+      b == NextRound(a.nd)
+      g2 == GossipAll(b.nd, g1.p)
+  IN [crash |-> g1.panic \/ g2.panic, halt |-> a.halt \/ b.halt]
+\* [crash |-> a goroutine panicked (the process dies), halt |-> consensus halted (the node is wedged)]
+RunCase(c) ==
+  LET f == FeedSeq(c.nd, NewPRS, c.sq)
+      o == IF f.crash \/ f.halt THEN [crash |-> FALSE, halt |-> FALSE] ELSE CarryOn(f.nd, f.p)
+  IN [crash |-> f.crash \/ o.crash, halt |-> f.halt \/ o.halt]
 
 StoredBounded(p) ==
   /\ p.pol \in {NilBA} \cup 1..MaxVotes
